@@ -1607,7 +1607,7 @@ pub fn replay_c16(case: serde_json::Value) -> R<CaseMeta> {
 // =============================================================================================
 // C08 — planted damage (in-process)
 
-pub const C08_PLANT_RULE: &str = "planted damage: a store produced by a generated history is closed cleanly; then generated damage is planted — orphan blobs at canonical paths (also contents that share a prefix directory with live blobs), stray files directly under cas/, under cas/xx/ and under cas/xx/yy/ with non-hex or wrong-length names, leftover files in staging/, referenced blobs deleted / truncated / extended / altered at the same length, and (separately counted class 'alias') files whose last three path components concatenate to 64 hex digits but that are not at the canonical location (shifted split, upper-case); both verify_blob_integrity values. Oracle: OrphanStats (orphaned, missing, corrupted, invalid, staging, total_blobs) == independent diff of the directory against the model; then one generated action: delete_orphans (counters == set sizes, no errors, afterwards no orphan/invalid/staging file remains and every referenced blob that existed is untouched), quarantine_orphans (every orphan moved to dir/<hex> with its bytes, referenced blobs untouched), or delete_orphan(h) for a reported and for a non-reported hash (true iff reported and unreferenced). non-trivial = >=2 damage classes at once, or an orphan sharing a directory level with a referenced blob; distinct by case hash";
+pub const C08_PLANT_RULE: &str = "planted damage: a store produced by a generated history is closed cleanly; then generated damage is planted — orphan blobs at canonical paths (also contents that share a prefix directory with live blobs), stray files directly under cas/, under cas/xx/ and under cas/xx/yy/ with non-hex or wrong-length names, leftover files in staging/, referenced blobs (lengths 0 to 300 001 bytes) deleted / truncated by one byte or to a generated fraction / extended by 1 to 300 000 bytes / altered in one bit at a generated position (first, last, anywhere) at the same length, and (separately counted class 'alias') files whose last three path components concatenate to 64 hex digits but that are not at the canonical location (shifted split, upper-case); both verify_blob_integrity values. Oracle: OrphanStats (orphaned, missing, corrupted, invalid, staging, total_blobs) == independent diff of the directory against the model; then one generated action: delete_orphans (counters == set sizes, no errors, afterwards no orphan/invalid/staging file remains and every referenced blob that existed is untouched), quarantine_orphans (every orphan moved to dir/<hex> with its bytes, referenced blobs untouched), or delete_orphan(h) for a reported and for a non-reported hash (true iff reported and unreferenced). non-trivial = >=2 damage classes at once, or an orphan sharing a directory level with a referenced blob; distinct by case hash";
 
 #[derive(Clone, Debug, Serialize, Deserialize, PartialEq)]
 pub enum Dmg {
@@ -1620,6 +1620,12 @@ pub enum Dmg {
     Truncate { k: u8 },
     Extend { k: u8 },
     Alter { k: u8 },
+    /// cut the blob of key k to len * keep / 1000 bytes
+    TruncateTo { k: u8, keep: u16 },
+    /// append `by` bytes
+    ExtendBy { k: u8, by: u32 },
+    /// flip one bit of the byte at len * at / 1000 (1000 = last byte)
+    AlterAt { k: u8, at: u16, bit: u8 },
     AliasShifted { id: u8 },
     AliasUpper { id: u8 },
     AliasUpperOfLive { k: u8 },
@@ -1650,7 +1656,12 @@ fn plant_run(case: &PlantCase) -> R<CaseMeta> {
         let cas = Cas::<String>::open(&db, cfg_n(100, false)).map_err(|e| Fail::new("open-err", format!("{e:?}")))?;
         for (k, c) in &case.puts {
             let key = keys[(*k as usize) % keys.len()].clone();
-            let content = pool_content((*c as usize) % 5);
+            // 0..4: small pool contents; 5: 20 011 bytes; 6: 300 001 bytes (beyond buffer and mmap/parallel-hash thresholds)
+            let content = match *c {
+                5 => pool_content(7),
+                6 => pool_content(9),
+                c => pool_content((c as usize) % 5),
+            };
             let mut tx = cas.put(key.clone()).map_err(|e| Fail::new("op-err/put", format!("{e:?}")))?;
             tx.write(&content).map_err(|e| Fail::new("op-err/write", format!("{e:?}")))?;
             tx.finish().map_err(|e| Fail::new("op-err/finish", format!("{e:?}")))?;
@@ -1725,6 +1736,40 @@ fn plant_run(case: &PlantCase) -> R<CaseMeta> {
                                 let l = data.len();
                                 data[l / 2] ^= 0x40;
                             }
+                        }
+                        std::fs::write(&p, &data).expect("harness: plant");
+                        classes.insert("corrupt");
+                    }
+                }
+            }
+            Dmg::TruncateTo { k, .. } | Dmg::ExtendBy { k, .. } | Dmg::AlterAt { k, .. } => {
+                if let Some((_, h, _)) = live_of(*k) {
+                    let p = casdir.join(rel_path_of(&h));
+                    if let Ok(mut data) = std::fs::read(&p) {
+                        let l = data.len();
+                        match d {
+                            Dmg::TruncateTo { keep, .. } => {
+                                let nl = (l as u64 * (*keep as u64).min(999) / 1000) as usize;
+                                if nl >= l {
+                                    continue;
+                                }
+                                data.truncate(nl);
+                            }
+                            Dmg::ExtendBy { by, .. } => {
+                                let by = (*by).max(1) as usize;
+                                data.extend(gen_content(77, by));
+                            }
+                            Dmg::AlterAt { at, bit, .. } => {
+                                if l == 0 {
+                                    continue;
+                                }
+                                let pos = ((l as u64 - 1) * (*at as u64).min(1000) / 1000) as usize;
+                                data[pos] ^= 1 << (bit % 8);
+                                if l >= 131_072 {
+                                    classes.insert("corrupt_large_blob");
+                                }
+                            }
+                            _ => unreachable!(),
                         }
                         std::fs::write(&p, &data).expect("harness: plant");
                         classes.insert("corrupt");
@@ -1887,6 +1932,9 @@ pub fn run_c08_planted(ctx: &Ctx, acc: &Mutex<Acc>) -> Option<Violation> {
             (2, (0u8..5).prop_map(|k| Dmg::Truncate { k }).boxed()),
             (2, (0u8..5).prop_map(|k| Dmg::Extend { k }).boxed()),
             (2, (0u8..5).prop_map(|k| Dmg::Alter { k }).boxed()),
+            (2, (0u8..5, prop_oneof![Just(0u16), Just(999u16), 0u16..1000]).prop_map(|(k, keep)| Dmg::TruncateTo { k, keep }).boxed()),
+            (2, (0u8..5, prop_oneof![Just(1u32), 1u32..10_000, 100_000u32..300_000]).prop_map(|(k, by)| Dmg::ExtendBy { k, by }).boxed()),
+            (4, (0u8..5, prop_oneof![Just(0u16), Just(1000u16), 0u16..=1000], 0u8..8).prop_map(|(k, at, bit)| Dmg::AlterAt { k, at, bit }).boxed()),
         ];
         if with_alias {
             alts.push((6, (0u8..200).prop_map(|id| Dmg::AliasShifted { id }).boxed()));
@@ -1894,7 +1942,7 @@ pub fn run_c08_planted(ctx: &Ctx, acc: &Mutex<Acc>) -> Option<Violation> {
             alts.push((3, (0u8..5).prop_map(|k| Dmg::AliasUpperOfLive { k }).boxed()));
         }
         (
-            vec((0u8..5, 0u8..5), 0..7),
+            vec((0u8..5, prop_oneof![5 => 0u8..5, 1 => Just(5u8), 1 => Just(6u8)]), 0..7),
             vec(proptest::strategy::Union::new_weighted(alts), 0..6),
             any::<bool>(),
             prop_oneof![4 => Just(PlantAction::Delete), 2 => Just(PlantAction::Quarantine), 2 => any::<bool>().prop_map(|r| PlantAction::DeleteOne { reported: r })],
